@@ -71,76 +71,107 @@ package global
 // instrument constructors: delegate and instruments are read and written under the meter lock only; an instrument
 // created before installation is in the instruments map (to be connected by setDelegate, under the same lock), one
 // created afterwards comes from the delegate.
+// instrument constructors: while no delegate is installed the placeholder is filed in m.instruments under an identity whose kind
+// IS the reflect type of the placeholder stored (so two instrument kinds with the same name/description/unit never share an entry,
+// and setDelegate, which walks that map, reaches every placeholder handed out); with a delegate the call is forwarded unchanged
 //@ func (m *meter) Int64Counter(name string, options []metric.Int64CounterOption) (r metric.Int64Counter, err error)
 //@   prop C16
 //@   acquires m.mtx
 //@   unchecked frame,no-panic third-party SDK calls, reflect
 //@   requires m != nil
+//@   assert@call mapupdate#* : holds(m.mtx) && m.delegate == nil && $arg0 == m.instruments && $arg1.name == name && $arg1.kind == reflect.TypeOf($arg2) && typeis($arg2, "*siCounter") && cast($arg2, "*siCounter").name == name && cast($arg2, "*siCounter").opts === options
+//@   assert@call Int64Counter#1 : holds(m.mtx) && $arg1 == name && $arg2 === options
 //@ func (m *meter) Int64UpDownCounter(name string, options []metric.Int64UpDownCounterOption) (r metric.Int64UpDownCounter, err error)
 //@   prop C16
 //@   acquires m.mtx
 //@   unchecked frame,no-panic third-party SDK calls, reflect
 //@   requires m != nil
+//@   assert@call mapupdate#* : holds(m.mtx) && m.delegate == nil && $arg0 == m.instruments && $arg1.name == name && $arg1.kind == reflect.TypeOf($arg2) && typeis($arg2, "*siUpDownCounter") && cast($arg2, "*siUpDownCounter").name == name && cast($arg2, "*siUpDownCounter").opts === options
+//@   assert@call Int64UpDownCounter#1 : holds(m.mtx) && $arg1 == name && $arg2 === options
 //@ func (m *meter) Int64Histogram(name string, options []metric.Int64HistogramOption) (r metric.Int64Histogram, err error)
 //@   prop C16
 //@   acquires m.mtx
 //@   unchecked frame,no-panic third-party SDK calls, reflect
 //@   requires m != nil
+//@   assert@call mapupdate#* : holds(m.mtx) && m.delegate == nil && $arg0 == m.instruments && $arg1.name == name && $arg1.kind == reflect.TypeOf($arg2) && typeis($arg2, "*siHistogram") && cast($arg2, "*siHistogram").name == name && cast($arg2, "*siHistogram").opts === options
+//@   assert@call Int64Histogram#1 : holds(m.mtx) && $arg1 == name && $arg2 === options
 //@ func (m *meter) Int64Gauge(name string, options []metric.Int64GaugeOption) (r metric.Int64Gauge, err error)
 //@   prop C16
 //@   acquires m.mtx
 //@   unchecked frame,no-panic third-party SDK calls, reflect
 //@   requires m != nil
+//@   assert@call mapupdate#* : holds(m.mtx) && m.delegate == nil && $arg0 == m.instruments && $arg1.name == name && $arg1.kind == reflect.TypeOf($arg2) && typeis($arg2, "*siGauge") && cast($arg2, "*siGauge").name == name && cast($arg2, "*siGauge").opts === options
+//@   assert@call Int64Gauge#1 : holds(m.mtx) && $arg1 == name && $arg2 === options
 //@ func (m *meter) Int64ObservableCounter(name string, options []metric.Int64ObservableCounterOption) (r metric.Int64ObservableCounter, err error)
 //@   prop C16
 //@   acquires m.mtx
 //@   unchecked frame,no-panic third-party SDK calls, reflect
 //@   requires m != nil
+//@   assert@call mapupdate#* : holds(m.mtx) && m.delegate == nil && $arg0 == m.instruments && $arg1.name == name && $arg1.kind == reflect.TypeOf($arg2) && typeis($arg2, "*aiCounter") && cast($arg2, "*aiCounter").name == name && cast($arg2, "*aiCounter").opts === options
+//@   assert@call Int64ObservableCounter#1 : holds(m.mtx) && $arg1 == name && $arg2 === options
 //@ func (m *meter) Int64ObservableUpDownCounter(name string, options []metric.Int64ObservableUpDownCounterOption) (r metric.Int64ObservableUpDownCounter, err error)
 //@   prop C16
 //@   acquires m.mtx
 //@   unchecked frame,no-panic third-party SDK calls, reflect
 //@   requires m != nil
+//@   assert@call mapupdate#* : holds(m.mtx) && m.delegate == nil && $arg0 == m.instruments && $arg1.name == name && $arg1.kind == reflect.TypeOf($arg2) && typeis($arg2, "*aiUpDownCounter") && cast($arg2, "*aiUpDownCounter").name == name && cast($arg2, "*aiUpDownCounter").opts === options
+//@   assert@call Int64ObservableUpDownCounter#1 : holds(m.mtx) && $arg1 == name && $arg2 === options
 //@ func (m *meter) Int64ObservableGauge(name string, options []metric.Int64ObservableGaugeOption) (r metric.Int64ObservableGauge, err error)
 //@   prop C16
 //@   acquires m.mtx
 //@   unchecked frame,no-panic third-party SDK calls, reflect
 //@   requires m != nil
+//@   assert@call mapupdate#* : holds(m.mtx) && m.delegate == nil && $arg0 == m.instruments && $arg1.name == name && $arg1.kind == reflect.TypeOf($arg2) && typeis($arg2, "*aiGauge") && cast($arg2, "*aiGauge").name == name && cast($arg2, "*aiGauge").opts === options
+//@   assert@call Int64ObservableGauge#1 : holds(m.mtx) && $arg1 == name && $arg2 === options
 //@ func (m *meter) Float64Counter(name string, options []metric.Float64CounterOption) (r metric.Float64Counter, err error)
 //@   prop C16
 //@   acquires m.mtx
 //@   unchecked frame,no-panic third-party SDK calls, reflect
 //@   requires m != nil
+//@   assert@call mapupdate#* : holds(m.mtx) && m.delegate == nil && $arg0 == m.instruments && $arg1.name == name && $arg1.kind == reflect.TypeOf($arg2) && typeis($arg2, "*sfCounter") && cast($arg2, "*sfCounter").name == name && cast($arg2, "*sfCounter").opts === options
+//@   assert@call Float64Counter#1 : holds(m.mtx) && $arg1 == name && $arg2 === options
 //@ func (m *meter) Float64UpDownCounter(name string, options []metric.Float64UpDownCounterOption) (r metric.Float64UpDownCounter, err error)
 //@   prop C16
 //@   acquires m.mtx
 //@   unchecked frame,no-panic third-party SDK calls, reflect
 //@   requires m != nil
+//@   assert@call mapupdate#* : holds(m.mtx) && m.delegate == nil && $arg0 == m.instruments && $arg1.name == name && $arg1.kind == reflect.TypeOf($arg2) && typeis($arg2, "*sfUpDownCounter") && cast($arg2, "*sfUpDownCounter").name == name && cast($arg2, "*sfUpDownCounter").opts === options
+//@   assert@call Float64UpDownCounter#1 : holds(m.mtx) && $arg1 == name && $arg2 === options
 //@ func (m *meter) Float64Histogram(name string, options []metric.Float64HistogramOption) (r metric.Float64Histogram, err error)
 //@   prop C16
 //@   acquires m.mtx
 //@   unchecked frame,no-panic third-party SDK calls, reflect
 //@   requires m != nil
+//@   assert@call mapupdate#* : holds(m.mtx) && m.delegate == nil && $arg0 == m.instruments && $arg1.name == name && $arg1.kind == reflect.TypeOf($arg2) && typeis($arg2, "*sfHistogram") && cast($arg2, "*sfHistogram").name == name && cast($arg2, "*sfHistogram").opts === options
+//@   assert@call Float64Histogram#1 : holds(m.mtx) && $arg1 == name && $arg2 === options
 //@ func (m *meter) Float64Gauge(name string, options []metric.Float64GaugeOption) (r metric.Float64Gauge, err error)
 //@   prop C16
 //@   acquires m.mtx
 //@   unchecked frame,no-panic third-party SDK calls, reflect
 //@   requires m != nil
+//@   assert@call mapupdate#* : holds(m.mtx) && m.delegate == nil && $arg0 == m.instruments && $arg1.name == name && $arg1.kind == reflect.TypeOf($arg2) && typeis($arg2, "*sfGauge") && cast($arg2, "*sfGauge").name == name && cast($arg2, "*sfGauge").opts === options
+//@   assert@call Float64Gauge#1 : holds(m.mtx) && $arg1 == name && $arg2 === options
 //@ func (m *meter) Float64ObservableCounter(name string, options []metric.Float64ObservableCounterOption) (r metric.Float64ObservableCounter, err error)
 //@   prop C16
 //@   acquires m.mtx
 //@   unchecked frame,no-panic third-party SDK calls, reflect
 //@   requires m != nil
+//@   assert@call mapupdate#* : holds(m.mtx) && m.delegate == nil && $arg0 == m.instruments && $arg1.name == name && $arg1.kind == reflect.TypeOf($arg2) && typeis($arg2, "*afCounter") && cast($arg2, "*afCounter").name == name && cast($arg2, "*afCounter").opts === options
+//@   assert@call Float64ObservableCounter#1 : holds(m.mtx) && $arg1 == name && $arg2 === options
 //@ func (m *meter) Float64ObservableUpDownCounter(name string, options []metric.Float64ObservableUpDownCounterOption) (r metric.Float64ObservableUpDownCounter, err error)
 //@   prop C16
 //@   acquires m.mtx
 //@   unchecked frame,no-panic third-party SDK calls, reflect
 //@   requires m != nil
+//@   assert@call mapupdate#* : holds(m.mtx) && m.delegate == nil && $arg0 == m.instruments && $arg1.name == name && $arg1.kind == reflect.TypeOf($arg2) && typeis($arg2, "*afUpDownCounter") && cast($arg2, "*afUpDownCounter").name == name && cast($arg2, "*afUpDownCounter").opts === options
+//@   assert@call Float64ObservableUpDownCounter#1 : holds(m.mtx) && $arg1 == name && $arg2 === options
 //@ func (m *meter) Float64ObservableGauge(name string, options []metric.Float64ObservableGaugeOption) (r metric.Float64ObservableGauge, err error)
 //@   prop C16
 //@   acquires m.mtx
 //@   unchecked frame,no-panic third-party SDK calls, reflect
 //@   requires m != nil
+//@   assert@call mapupdate#* : holds(m.mtx) && m.delegate == nil && $arg0 == m.instruments && $arg1.name == name && $arg1.kind == reflect.TypeOf($arg2) && typeis($arg2, "*afGauge") && cast($arg2, "*afGauge").name == name && cast($arg2, "*afGauge").opts === options
+//@   assert@call Float64ObservableGauge#1 : holds(m.mtx) && $arg1 == name && $arg2 === options
 
 //@ guarded_by meterProvider.mtx: meters, delegate
 //@ lockinv meterProvider.mtx: self.delegate != nil ==> len(self.meters) == 0
@@ -165,3 +196,154 @@ package global
 //@ func (t *tracer) setDelegate(provider trace.TracerProvider)
 //@   prop C16
 //@   unchecked frame,no-panic third-party SDK calls
+
+// ======================================================================== C16 placeholder instruments (instruments.go)
+// setDelegate: the SDK instrument is created with the placeholder's own name and options, and exactly that instrument is published
+// as the delegate (nothing is published when the SDK refuses); a measurement made through the placeholder is forwarded unchanged -
+// same value, same options - to the delegate that was loaded
+//@ func (i *siCounter) setDelegate(m metric.Meter)
+//@   prop C16
+//@   overflow assumed
+//@   unchecked frame,no-panic third-party SDK calls, error handler
+//@   requires i != nil && m != nil
+//@   assert@call Int64Counter#1 : $arg0 == m && $arg1 == i.name && $arg2 === i.opts
+//@   assert@call Store#* : $arg1 == ctr && err == nil
+//@ func (i *siCounter) Add(ctx context.Context, x int64, opts []metric.AddOption)
+//@   prop C16
+//@   overflow assumed
+//@   unchecked frame,no-panic third-party SDK calls
+//@   requires i != nil
+//@   assert@call Add#1 : $arg0 == ctr && $arg2 === x && $arg3 === opts
+//@ func (i *siUpDownCounter) setDelegate(m metric.Meter)
+//@   prop C16
+//@   overflow assumed
+//@   unchecked frame,no-panic third-party SDK calls, error handler
+//@   requires i != nil && m != nil
+//@   assert@call Int64UpDownCounter#1 : $arg0 == m && $arg1 == i.name && $arg2 === i.opts
+//@   assert@call Store#* : $arg1 == ctr && err == nil
+//@ func (i *siUpDownCounter) Add(ctx context.Context, x int64, opts []metric.AddOption)
+//@   prop C16
+//@   overflow assumed
+//@   unchecked frame,no-panic third-party SDK calls
+//@   requires i != nil
+//@   assert@call Add#1 : $arg0 == ctr && $arg2 === x && $arg3 === opts
+//@ func (i *siHistogram) setDelegate(m metric.Meter)
+//@   prop C16
+//@   overflow assumed
+//@   unchecked frame,no-panic third-party SDK calls, error handler
+//@   requires i != nil && m != nil
+//@   assert@call Int64Histogram#1 : $arg0 == m && $arg1 == i.name && $arg2 === i.opts
+//@   assert@call Store#* : $arg1 == ctr && err == nil
+//@ func (i *siHistogram) Record(ctx context.Context, x int64, opts []metric.RecordOption)
+//@   prop C16
+//@   overflow assumed
+//@   unchecked frame,no-panic third-party SDK calls
+//@   requires i != nil
+//@   assert@call Record#1 : $arg0 == ctr && $arg2 === x && $arg3 === opts
+//@ func (i *siGauge) setDelegate(m metric.Meter)
+//@   prop C16
+//@   overflow assumed
+//@   unchecked frame,no-panic third-party SDK calls, error handler
+//@   requires i != nil && m != nil
+//@   assert@call Int64Gauge#1 : $arg0 == m && $arg1 == i.name && $arg2 === i.opts
+//@   assert@call Store#* : $arg1 == ctr && err == nil
+//@ func (i *siGauge) Record(ctx context.Context, x int64, opts []metric.RecordOption)
+//@   prop C16
+//@   overflow assumed
+//@   unchecked frame,no-panic third-party SDK calls
+//@   requires i != nil
+//@   assert@call Record#1 : $arg0 == ctr && $arg2 === x && $arg3 === opts
+//@ func (i *aiCounter) setDelegate(m metric.Meter)
+//@   prop C16
+//@   overflow assumed
+//@   unchecked frame,no-panic third-party SDK calls, error handler
+//@   requires i != nil && m != nil
+//@   assert@call Int64ObservableCounter#1 : $arg0 == m && $arg1 == i.name && $arg2 === i.opts
+//@   assert@call Store#* : $arg1 == ctr && err == nil
+//@ func (i *aiUpDownCounter) setDelegate(m metric.Meter)
+//@   prop C16
+//@   overflow assumed
+//@   unchecked frame,no-panic third-party SDK calls, error handler
+//@   requires i != nil && m != nil
+//@   assert@call Int64ObservableUpDownCounter#1 : $arg0 == m && $arg1 == i.name && $arg2 === i.opts
+//@   assert@call Store#* : $arg1 == ctr && err == nil
+//@ func (i *aiGauge) setDelegate(m metric.Meter)
+//@   prop C16
+//@   overflow assumed
+//@   unchecked frame,no-panic third-party SDK calls, error handler
+//@   requires i != nil && m != nil
+//@   assert@call Int64ObservableGauge#1 : $arg0 == m && $arg1 == i.name && $arg2 === i.opts
+//@   assert@call Store#* : $arg1 == ctr && err == nil
+//@ func (i *sfCounter) setDelegate(m metric.Meter)
+//@   prop C16
+//@   overflow assumed
+//@   unchecked frame,no-panic third-party SDK calls, error handler
+//@   requires i != nil && m != nil
+//@   assert@call Float64Counter#1 : $arg0 == m && $arg1 == i.name && $arg2 === i.opts
+//@   assert@call Store#* : $arg1 == ctr && err == nil
+//@ func (i *sfCounter) Add(ctx context.Context, incr float64, opts []metric.AddOption)
+//@   prop C16
+//@   overflow assumed
+//@   unchecked frame,no-panic third-party SDK calls
+//@   requires i != nil
+//@   assert@call Add#1 : $arg0 == ctr && $arg2 === incr && $arg3 === opts
+//@ func (i *sfUpDownCounter) setDelegate(m metric.Meter)
+//@   prop C16
+//@   overflow assumed
+//@   unchecked frame,no-panic third-party SDK calls, error handler
+//@   requires i != nil && m != nil
+//@   assert@call Float64UpDownCounter#1 : $arg0 == m && $arg1 == i.name && $arg2 === i.opts
+//@   assert@call Store#* : $arg1 == ctr && err == nil
+//@ func (i *sfUpDownCounter) Add(ctx context.Context, incr float64, opts []metric.AddOption)
+//@   prop C16
+//@   overflow assumed
+//@   unchecked frame,no-panic third-party SDK calls
+//@   requires i != nil
+//@   assert@call Add#1 : $arg0 == ctr && $arg2 === incr && $arg3 === opts
+//@ func (i *sfHistogram) setDelegate(m metric.Meter)
+//@   prop C16
+//@   overflow assumed
+//@   unchecked frame,no-panic third-party SDK calls, error handler
+//@   requires i != nil && m != nil
+//@   assert@call Float64Histogram#1 : $arg0 == m && $arg1 == i.name && $arg2 === i.opts
+//@   assert@call Store#* : $arg1 == ctr && err == nil
+//@ func (i *sfHistogram) Record(ctx context.Context, x float64, opts []metric.RecordOption)
+//@   prop C16
+//@   overflow assumed
+//@   unchecked frame,no-panic third-party SDK calls
+//@   requires i != nil
+//@   assert@call Record#1 : $arg0 == ctr && $arg2 === x && $arg3 === opts
+//@ func (i *sfGauge) setDelegate(m metric.Meter)
+//@   prop C16
+//@   overflow assumed
+//@   unchecked frame,no-panic third-party SDK calls, error handler
+//@   requires i != nil && m != nil
+//@   assert@call Float64Gauge#1 : $arg0 == m && $arg1 == i.name && $arg2 === i.opts
+//@   assert@call Store#* : $arg1 == ctr && err == nil
+//@ func (i *sfGauge) Record(ctx context.Context, x float64, opts []metric.RecordOption)
+//@   prop C16
+//@   overflow assumed
+//@   unchecked frame,no-panic third-party SDK calls
+//@   requires i != nil
+//@   assert@call Record#1 : $arg0 == ctr && $arg2 === x && $arg3 === opts
+//@ func (i *afCounter) setDelegate(m metric.Meter)
+//@   prop C16
+//@   overflow assumed
+//@   unchecked frame,no-panic third-party SDK calls, error handler
+//@   requires i != nil && m != nil
+//@   assert@call Float64ObservableCounter#1 : $arg0 == m && $arg1 == i.name && $arg2 === i.opts
+//@   assert@call Store#* : $arg1 == ctr && err == nil
+//@ func (i *afUpDownCounter) setDelegate(m metric.Meter)
+//@   prop C16
+//@   overflow assumed
+//@   unchecked frame,no-panic third-party SDK calls, error handler
+//@   requires i != nil && m != nil
+//@   assert@call Float64ObservableUpDownCounter#1 : $arg0 == m && $arg1 == i.name && $arg2 === i.opts
+//@   assert@call Store#* : $arg1 == ctr && err == nil
+//@ func (i *afGauge) setDelegate(m metric.Meter)
+//@   prop C16
+//@   overflow assumed
+//@   unchecked frame,no-panic third-party SDK calls, error handler
+//@   requires i != nil && m != nil
+//@   assert@call Float64ObservableGauge#1 : $arg0 == m && $arg1 == i.name && $arg2 === i.opts
+//@   assert@call Store#* : $arg1 == ctr && err == nil
